@@ -190,6 +190,33 @@ Fixpoint extend_go (cl : nat -> bool) (k : nat) (acc : list nat) (ids : list nat
 Definition op_extend_clones (cl : nat -> bool) (l : list nat) (ids : list nat) : outcome :=
   extend_go cl 0 l ids.
 
+
+(* ---------------------------------------------------------------- into_iter / splice / map_in_place / append *)
+(* into_iter consumed from both ends, then dropped: a drain of everything *)
+Definition op_into_iter (dp : dpan) (l : list nat) (kf kb : nat) : outcome :=
+  op_drain dp l 0 (length l) kf kb DrainDrop.
+
+(* splice(a..b, repl): `take` removed elements are pulled, the Splice is dropped (the remaining
+   removed elements are dropped, the replacement moves in).  Input = l ++ repl. *)
+Definition op_splice (dp : dpan) (l : list nat) (a b : nat) (repl : list nat) (take : nat) : outcome :=
+  if (b <? a) || (length l <? b) then mkOutcome l [] repl true 0
+  else
+    let rng := firstn (b - a) (skipn a l) in
+    let t := Nat.min take (length rng) in
+    let '(d, p) := drop_all dp (skipn t rng) in
+    mkOutcome (firstn a l ++ repl ++ skipn b l) (firstn t rng) d p 0.
+
+(* map_in_place: the closure may panic at its k-th call; then every element has been dropped
+   (mapped ones by the guard, the one inside the closure by unwinding, the rest by the guard) *)
+Definition op_map_in_place (l : list nat) (panic_at : option nat) : outcome :=
+  match panic_at with
+  | Some k => if k <? length l then mkOutcome [] [] l true (S k) else mkOutcome l [] [] false (length l)
+  | None => mkOutcome l [] [] false (length l)
+  end.
+
+(* append(other): the elements move, nothing is dropped.  Input = l ++ other. *)
+Definition op_append (l other : list nat) : outcome := mkOutcome (l ++ other) [] [] false 0.
+
 (* ---------------------------------------------------------------- mirrored (MutBumpVecRev) *)
 Definition mirror (o : outcome) : outcome :=
   mkOutcome (rev (final o)) (yielded o) (dropped o) (unwound o) (calls o).
